@@ -149,3 +149,66 @@ theorem version_rt' (a b : UInt8) (ha : a.toNat < 16) (hb : b.toNat < 16) :
 
 
 end Ike
+
+namespace Ike
+
+
+set_option maxRecDepth 100000 in
+theorem u8_bit7 : ∀ x : Fin 256, ((UInt8.ofNat x.val &&& 0x80) >>> 7) = UInt8.ofNat (x.val / 128) := by decide
+
+theorem u8_bit7' (x : UInt8) : ((x &&& 0x80) >>> 7) = UInt8.ofNat (x.toNat / 128) := by
+  have := u8_bit7 ⟨x.toNat, x.toNat_lt⟩
+  simpa using this
+
+theorem u16_or_8000 (a : UInt16) (h : a.toNat < 32768) : ((0x8000 : UInt16) ||| a).toNat = 32768 + a.toNat := by
+  simp only [UInt16.toNat_or]
+  have : (0x8000 : UInt16).toNat = 2^15 := rfl
+  rw [this]
+  have := Nat.two_pow_add_eq_or_of_lt (i := 15) (b := a.toNat) (by simpa using h) 1
+  simp only [Nat.mul_one] at this
+  omega
+
+/-- the format/type word of an attribute: `((fmt & 1) << 15) | type` -/
+theorem ft_tv (a : UInt16) : (((1 : UInt8).toUInt16 &&& 1) <<< 15) ||| a = (0x8000 : UInt16) ||| a := by
+  rfl
+
+theorem ft_tlv (a : UInt16) : (((0 : UInt8).toUInt16 &&& 1) <<< 15) ||| a = a := by
+  apply UInt16.toNat_inj.mp
+  simp
+
+
+end Ike
+
+namespace Ike
+
+
+theorem attr_word_tv (a : UInt16) (h : a.toNat < 32768) :
+    ((UInt8.ofNat (((0x8000 : UInt16) ||| a).toNat / 256) &&& 0x80) >>> 7 = 1) ∧
+    (((0x8000 : UInt16) ||| a) &&& 0x7fff = a) := by
+  have hw := u16_or_8000 a h
+  constructor
+  · rw [u8_bit7']
+    simp only [UInt8.toNat_ofNat', hw]
+    have : (32768 + a.toNat) / 256 % 256 / 128 = 1 := by omega
+    rw [this]; rfl
+  · apply UInt16.toNat_inj.mp
+    simp only [UInt16.toNat_and, hw]
+    have : (0x7fff : UInt16).toNat = 2^15 - 1 := rfl
+    rw [this, Nat.and_two_pow_sub_one_eq_mod]
+    omega
+
+theorem attr_word_tlv (a : UInt16) (h : a.toNat < 32768) :
+    ((UInt8.ofNat (a.toNat / 256) &&& 0x80) >>> 7 = 0) := by
+  rw [u8_bit7']
+  simp only [UInt8.toNat_ofNat']
+  have : a.toNat / 256 % 256 / 128 = 0 := by omega
+  rw [this]; rfl
+
+theorem tbuf_bytes (x0 x1 tt : UInt8) (v tid : UInt16) (a rest : Bytes) (i : Nat) :
+    byteAt ([x0, x1] ++ put16 v ++ [tt, 0] ++ put16 tid ++ a ++ rest) (8 + i) = byteAt (a ++ rest) i := by
+  have := byteAt_append_right ([x0, x1] ++ put16 v ++ [tt, 0] ++ put16 tid) (a ++ rest) i
+  simp only [List.append_assoc] at this ⊢
+  simpa using this
+
+
+end Ike
